@@ -231,7 +231,34 @@ def kwargs_roundtrip(run, hvsrpy, wd):
                     differs = not np.array_equal(default._main_peak_frq, inner[0]._main_peak_frq, equal_nan=True)
                     n += 1
                     run.case(("rt-kwargs", kind, json.dumps(kwargs), str(rng_), tuple(masks)) if differs else None)
+    # diffuse-field results: one curve, its peak over the range / with the options it was searched with
+    nd = 0
+    for kwargs in (dict(width=2), None):
+        for rng_ in ((None, None), (None, 15.0), (0.8, 18.0), (5.0, None)):
+            obj = hvsrpy.HvsrDiffuseField(f, rows(0)[1], meta={"processing_method": "diffuse_field"})
+            obj.update_peaks_bounded(search_range_in_hz=rng_, find_peaks_kwargs=kwargs)
+            label = f"diffuse field find_peaks_kwargs={kwargs} range={rng_}"
+            rep = dict(kind="roundtrip-kwargs", obj="diffuse_field", kwargs=kwargs, range=rng_)
+            try:
+                with warnings.catch_warnings():
+                    warnings.simplefilter("ignore")
+                    hvsrpy.write_hvsr_object_to_file(obj, fn)
+                    back = hvsrpy.read_hvsr_object_from_file(fn)
+            except Exception as e:
+                run.violation("roundtrip:kwargs:exception:diffuse_field", f"{label}: write/read raised {type(e).__name__}: {e}", rep)
+                continue
+            same = (type(back) is type(obj) and np.array_equal(back.amplitude, obj.amplitude) and np.array_equal(back.frequency, obj.frequency)
+                    and np.array_equal(np.atleast_1d(back.peak_frequency), np.atleast_1d(obj.peak_frequency), equal_nan=True)
+                    and np.array_equal(np.atleast_1d(back.peak_amplitude), np.atleast_1d(obj.peak_amplitude), equal_nan=True)
+                    and tuple(back._search_range_in_hz) == tuple(obj._search_range_in_hz)
+                    and tuple(back.meta.get("search_range_in_hz")) == tuple(obj.meta.get("search_range_in_hz")))
+            if not same:
+                run.violation("roundtrip:kwargs:diffuse_field", f"{label}: read back peak {back.peak_frequency} over {back._search_range_in_hz} "
+                              f"(meta {back.meta.get('search_range_in_hz')}), written peak {obj.peak_frequency} over {obj._search_range_in_hz}", rep)
+            nd += 1
+            run.case(("rt-diffuse", json.dumps(kwargs), str(rng_)))
     run.notes["kwargs_round_trips"] = n
+    run.notes["diffuse_field_round_trips"] = nd
 
 
 def main():
